@@ -546,7 +546,7 @@ def snapshot(ike_sa, kernel):
         my_crypto=ike_sa.my_crypto, peer_crypto=ike_sa.peer_crypto, peer_spi=ike_sa.peer_spi, my_spi=ike_sa.my_spi,
         creating=ike_sa.creating_child_sa, rekeying=ike_sa.rekeying_child_sa, deleting=ike_sa.deleting_child_sa,
         rekey_at=ike_sa.rekey_ike_sa_at, delete_at=ike_sa.delete_ike_sa_at, chosen=ike_sa.chosen_proposal,
-        init_req=ike_sa.ike_sa_init_req_data, init_res=ike_sa.ike_sa_init_res_data)
+        init_req=ike_sa.ike_sa_init_req_data, init_res=ike_sa.ike_sa_init_res_data, my_addr=ike_sa.my_addr, peer_addr=ike_sa.peer_addr)
 
 
 def snap_diff(s0, s1):
